@@ -114,6 +114,23 @@ def build_harness(workdir):
     return out
 
 
+def build_harness_race(workdir):
+    """the harness (and with it dirk's packages) built with Go's race detector, for the concurrent burst of C20"""
+    out = os.path.join(workdir, "dh-race")
+    if os.path.exists(out):
+        return out
+    with Lock(os.path.join(WORK, "harness.lock")):
+        cmd = ["go", "build", "-race", "-tags", "verif", "-o", out]
+        if os.path.realpath(REPO) != "/repo":
+            alt = os.path.join(workdir, "go.alt.mod")
+            if os.path.exists(alt):
+                cmd.append("-modfile=" + alt)
+        rc, o, e = sh(cmd + ["./cmd/dh"], cwd=HARNESS, env=GOENV, timeout=1800)
+        if rc != 0:
+            raise Broken("harness-race-build", (o + e)[-3000:])
+    return out
+
+
 _dirk_bin = None
 
 
